@@ -1,6 +1,6 @@
 """What is claimed, per property. A property appears in CLAIMS only once its checker exists and
 passes on the unchanged tree."""
-FIX_COMMITS = ["4e9e139", "5ee6583", "744f482", "eb93a13", "ceb972a", "a924d81", "2127bcd", "d45c8ce", "840f793", "c6f0e0e", "026690a", "cee72dd", "d6006a0", "846c668", "74129bf", "7f18343", "8354688", "82fa6bb", "6319c34", "33ebaa4", "1e65682", "d23cb3d", "8d23fc0", "35e79d8", "36df0dd", "6dde094", "fd9c08b", "1b70461", "8854632", "4974803", "5139c33", "e00fad1", "fbec162", "23eb645", "274cad8", "0023d85", "44adde2", "76b905b", "e323902", "9a6c065", "80ad2cb", "3762e87", "314e3a1", "ea04832", "0bb1cf1", "4f512f3", "a2fb781", "e33bf11", "451dfe4", "f6c4920", "2d8299b", "1f6cd1f", "8050331", "4e55637", "ee3fa38", "04aff6d", "c4e307b", "bdcee01", "3887875", "5e627f5", "ac6e838", "9a6d0ed", "afc71e1", "9ae246a", "20132f0", "73535cf", "440ad6a", "ab740e4", "5939070", "4bdacbc", "f1d8441", "114f63f", "11a422d", "5424fcc", "6ee40c3", "d6451a3"]
+FIX_COMMITS = ["4e9e139", "5ee6583", "744f482", "eb93a13", "ceb972a", "a924d81", "2127bcd", "d45c8ce", "840f793", "c6f0e0e", "026690a", "cee72dd", "d6006a0", "846c668", "74129bf", "7f18343", "8354688", "82fa6bb", "6319c34", "33ebaa4", "1e65682", "d23cb3d", "8d23fc0", "35e79d8", "36df0dd", "6dde094", "fd9c08b", "1b70461", "8854632", "4974803", "5139c33", "e00fad1", "fbec162", "23eb645", "274cad8", "0023d85", "44adde2", "76b905b", "e323902", "9a6c065", "80ad2cb", "3762e87", "314e3a1", "ea04832", "0bb1cf1", "4f512f3", "a2fb781", "e33bf11", "451dfe4", "f6c4920", "2d8299b", "1f6cd1f", "8050331", "4e55637", "ee3fa38", "04aff6d", "c4e307b", "bdcee01", "3887875", "5e627f5", "ac6e838", "9a6d0ed", "afc71e1", "9ae246a", "20132f0", "73535cf", "440ad6a", "ab740e4", "5939070", "4bdacbc", "f1d8441", "114f63f", "11a422d", "5424fcc", "6ee40c3", "d6451a3", "cd92fce", "61fec09", "017afb1"]
 
 CLAIMS = {
     "C09": dict(
@@ -341,4 +341,25 @@ ADDENDA7 = {
     "C20": "Round 8: no method of the symbol graph stores a raw instance in the graph.",
 }
 for _k, _v in ADDENDA7.items():
+    CLAIMS[_k]["text"] = CLAIMS[_k]["text"].rstrip() + " " + _v
+
+ADDENDA8 = {
+    "C01": "Round 9: a Union reports a binding false exactly when both sides are false; for_all completes results that leave a variable unbound before judging them.",
+    "C02": "Round 9: shares QC-PATH.",
+    "C03": "Round 9: the domain cache of a variable is set up once, in its constructor.",
+    "C04": "Round 9: a DAO is created without running a constructor that does work; the alternatively mapped ancestor is looked for along the whole MRO.",
+    "C06": "Round 9: products of memoised steps are kept as they are; the ordering graph has an edge from the nearest ancestor in the diagram.",
+    "C07": "Round 9: the truth of a translated clause follows the operator, not the operand's Python truth.",
+    "C08": "Round 9: shares HV-TRUTH.",
+    "C11": "Round 9: shares CARRY-1 (no mapping keeps values by identity between evaluations).",
+    "C12": "Round 9: every place results of the condition are taken from projects their bindings on the free variable ids.",
+    "C13": "Round 9: the singleton metaclass returns the registered instance whatever the arguments.",
+    "C14": "Round 9: identity is a function of the object alone (no state kept between calls decides it).",
+    "C15": "Round 9: the first assignment of a managed field is recorded like any other.",
+    "C16": "Round 9: in-place operators are bulk adders and keep duplicates.",
+    "C18": "Round 9: registration in the type tables is unconditional.",
+    "C19": "Round 9: helpers are followed by the escape analysis; RecursionError from the import is converted.",
+    "C20": "Round 9: shares PD-FIELD.",
+}
+for _k, _v in ADDENDA8.items():
     CLAIMS[_k]["text"] = CLAIMS[_k]["text"].rstrip() + " " + _v
